@@ -180,6 +180,11 @@ func c07Body(t *testing.T, depth, devBound int, fixture bool, subset []int, slow
 	return func(x *mc.X) mc.Outcome {
 		var out mc.Outcome
 		leak := bubble(t, func() {
+			// the manager's select: with several ready cases the explorer decides (first in source order by default)
+			vsel.SetHook(func(ready []int) int {
+				return x.Deviate(len(ready), fmt.Sprintf("manager select: ready cases %v", ready))
+			})
+			defer vsel.SetHook(nil)
 			g, err := newRig(x, devBound > 0)
 			if err != nil {
 				out = mc.Outcome{Violation: "HARNESS: " + err.Error(), Key: "harness"}
